@@ -579,6 +579,40 @@ impl WarmSel for List<u64> {
     }
 }
 
+/// A handle for one operation: an own clone (script calls take handles by value) or a
+/// borrow of the slot's handle (the Rust API takes `&List`), which does not touch the
+/// reference count.
+pub enum Hnd<E: Elem>
+where
+    E::Transformed: PartialEq,
+{
+    Own(List<E>),
+    Bor(std::mem::ManuallyDrop<List<E>>),
+}
+impl<E: Elem> std::ops::Deref for Hnd<E>
+where
+    E::Transformed: PartialEq,
+{
+    type Target = List<E>;
+    fn deref(&self) -> &List<E> {
+        match self {
+            Hnd::Own(l) => l,
+            Hnd::Bor(b) => b,
+        }
+    }
+}
+impl<E: Elem> Hnd<E>
+where
+    E::Transformed: PartialEq,
+{
+    pub fn own(self) -> List<E> {
+        match self {
+            Hnd::Own(l) => l,
+            Hnd::Bor(b) => (*b).clone(),
+        }
+    }
+}
+
 /// Per-thread execution context.
 pub struct Exec<E: Elem>
 where
@@ -591,6 +625,24 @@ where
     pub inner: Inner,
     /// catch panics of the Rust-API paths (fault-injection configuration only)
     pub catch: bool,
+    /// slot holds a bitwise copy of a handle owned elsewhere (lists shared *by reference*
+    /// between threads): it must never be dropped through this slot
+    pub borrowed: Vec<bool>,
+}
+
+impl<E: Elem> Drop for Exec<E>
+where
+    E::Transformed: PartialEq,
+{
+    fn drop(&mut self) {
+        for i in 0..self.slots.len() {
+            if self.borrowed.get(i).copied().unwrap_or(false) {
+                if let Some(l) = self.slots[i].take() {
+                    std::mem::forget(l);
+                }
+            }
+        }
+    }
 }
 
 fn vals_to_m<E: Elem>(v: Vec<E>, inner: &mut Inner, what: &str) -> Vec<MVal>
@@ -613,8 +665,23 @@ impl<E: Elem> Exec<E>
 where
     E::Transformed: PartialEq,
 {
-    fn h(&self, i: usize) -> Option<List<E>> {
-        self.slots.get(i).cloned().flatten()
+    fn h(&self, i: usize, script: bool) -> Option<Hnd<E>> {
+        let s = self.slots.get(i)?.as_ref()?;
+        Some(if script {
+            Hnd::Own(s.clone())
+        } else {
+            // SAFETY: a bitwise copy that is never dropped (ManuallyDrop) and not used after the
+            // slot changes: equivalent to borrowing the slot's handle for this operation
+            Hnd::Bor(std::mem::ManuallyDrop::new(unsafe { std::ptr::read(s) }))
+        })
+    }
+
+    fn set_slot(&mut self, i: usize, v: Option<List<E>>) {
+        let old = std::mem::replace(&mut self.slots[i], v);
+        if self.borrowed.get(i).copied().unwrap_or(false) {
+            std::mem::forget(old);
+            self.borrowed[i] = false;
+        }
     }
 
     fn one(&mut self, r: Option<E>, what: &str) -> Obs {
@@ -650,20 +717,20 @@ where
         match op {
             Op::New { dst } => {
                 let l = if script { f.new.call() } else { List::<E>::new() };
-                self.slots[*dst] = Some(l);
+                self.set_slot(*dst, Some(l));
                 Obs::Unit
             }
             Op::FromVec { dst, vals } => {
                 let v: Vec<E> = vals.iter().map(|m| E::from_m(m, &self.inner)).collect();
                 let l = if vals.len() % 2 == 0 { List::from(v) } else { v.into_iter().collect::<List<E>>() };
-                self.slots[*dst] = Some(l);
+                self.set_slot(*dst, Some(l));
                 Obs::Unit
             }
             Op::Lit3 { dst, vals } => {
                 let mut it = vals.iter().map(|m| E::from_m(m, &self.inner));
                 let (a, b, c) = (it.next().unwrap(), it.next().unwrap(), it.next().unwrap());
                 let l = if script { f.lit3.call(a, b, c) } else { List::from([a, b, c]) };
-                self.slots[*dst] = Some(l);
+                self.set_slot(*dst, Some(l));
                 Obs::Unit
             }
             Op::GetMove { h, i } => match self.slots.get_mut(*h).and_then(|s| s.take()) {
@@ -698,7 +765,7 @@ where
                 let r = f.tmpget.call(*i, a, b);
                 self.one(r, "get on a temporary list")
             }
-            Op::IterWithPush { h, k, v } => match self.h(*h) {
+            Op::IterWithPush { h, k, v } => match self.h(*h, script) {
                 Some(l) => {
                     let mut it = l.clone().into_iter();
                     let mut out: Vec<E> = Vec::new();
@@ -718,85 +785,85 @@ where
                 let a = E::from_m(&vals[0], &self.inner);
                 let b = E::from_m(&vals[1], &self.inner);
                 let l = if *shape == 0 { f.branchlit.call(*c, a, b) } else { f.twolit.call(*c, a, b) };
-                self.slots[*dst] = Some(l);
+                self.set_slot(*dst, Some(l));
                 Obs::Unit
             }
             Op::Lit9 { dst, vals } => {
                 let mut it = vals.iter().map(|m| E::from_m(m, &self.inner));
                 let (a, b, c) = (it.next().unwrap(), it.next().unwrap(), it.next().unwrap());
                 let l = f.lit9.call(a, b, c);
-                self.slots[*dst] = Some(l);
+                self.set_slot(*dst, Some(l));
                 Obs::Unit
             }
-            Op::CloneH { src, dst } => match self.h(*src) {
+            Op::CloneH { src, dst } => match self.h(*src, script) {
                 Some(l) => {
-                    self.slots[*dst] = Some(l);
+                    self.set_slot(*dst, Some(l.own()));
                     Obs::Unit
                 }
                 None => Obs::Skipped,
             },
             Op::DropH { h } => {
-                self.slots[*h] = None;
+                self.set_slot(*h, None);
                 Obs::Unit
             }
-            Op::Push { h, v } => match self.h(*h) {
+            Op::Push { h, v } => match self.h(*h, script) {
                 Some(l) => {
                     let e = E::from_m(v, &self.inner);
-                    if script { f.push.call(l, e) } else { l.push(e) }
+                    if script { f.push.call(l.own(), e) } else { l.push(e) }
                     Obs::Unit
                 }
                 None => Obs::Skipped,
             },
-            Op::Get { h, i } => match self.h(*h) {
+            Op::Get { h, i } => match self.h(*h, script) {
                 Some(l) => {
-                    let r = if script { f.get.call(l, *i) } else { l.get(*i as usize) };
+                    let r = if script { f.get.call(l.own(), *i) } else { l.get(*i as usize) };
                     self.one(r, "get")
                 }
                 None => Obs::Skipped,
             },
-            Op::Len { h } => match self.h(*h) {
-                Some(l) => Obs::Num(if script { f.len.call(l) } else { l.len() as u64 }),
+            Op::Len { h } => match self.h(*h, script) {
+                Some(l) => Obs::Num(if script { f.len.call(l.own()) } else { l.len() as u64 }),
                 None => Obs::Skipped,
             },
-            Op::IsEmpty { h } => match self.h(*h) {
-                Some(l) => Obs::Bool(if script { f.is_empty.call(l) } else { l.is_empty() }),
+            Op::IsEmpty { h } => match self.h(*h, script) {
+                Some(l) => Obs::Bool(if script { f.is_empty.call(l.own()) } else { l.is_empty() }),
                 None => Obs::Skipped,
             },
-            Op::Cap { h } => match self.h(*h) {
-                Some(l) => Obs::Num(if script { f.cap.call(l) } else { l.capacity() as u64 }),
+            Op::Cap { h } => match self.h(*h, script) {
+                Some(l) => Obs::Num(if script { f.cap.call(l.own()) } else { l.capacity() as u64 }),
                 None => Obs::Skipped,
             },
-            Op::Swap { h, i, j } => match self.h(*h) {
+            Op::Swap { h, i, j } => match self.h(*h, script) {
                 Some(l) => {
-                    if script { f.swap.call(l, *i, *j) } else { l.swap(*i as usize, *j as usize) }
+                    if script { f.swap.call(l.own(), *i, *j) } else { l.swap(*i as usize, *j as usize) }
                     Obs::Unit
                 }
                 None => Obs::Skipped,
             },
-            Op::Contains { h, v } => match self.h(*h) {
+            Op::Contains { h, v } => match self.h(*h, script) {
                 Some(l) => {
                     let e = E::from_m(v, &self.inner);
-                    Obs::Bool(if script { f.contains.call(l, e) } else { l.contains(&e) })
+                    Obs::Bool(if script { f.contains.call(l.own(), e) } else { l.contains(&e) })
                 }
                 None => Obs::Skipped,
             },
-            Op::Index { h, v } => match self.h(*h) {
+            Op::Index { h, v } => match self.h(*h, script) {
                 Some(l) => {
                     let e = E::from_m(v, &self.inner);
-                    Obs::OptNum(if script { f.index.call(l, e) } else { l.index(&e).map(|x| x as u64) })
+                    Obs::OptNum(if script { f.index.call(l.own(), e) } else { l.index(&e).map(|x| x as u64) })
                 }
                 None => Obs::Skipped,
             },
-            Op::Concat { a, b, dst, plus } => match (self.h(*a), self.h(*b)) {
+            Op::Concat { a, b, dst, plus } => match (self.h(*a, script), self.h(*b, script)) {
                 (Some(x), Some(y)) => {
                     let r = if script {
-                        if *plus { f.plus.call(x, y) } else { f.concat.call(x, y) }
+                        if *plus { f.plus.call(x.own(), y.own()) } else { f.concat.call(x.own(), y.own()) }
                     } else {
                         x.concat(&y)
                     };
                     match dst {
                         Some(d) => {
-                            self.slots[*d] = Some(r);
+                            self.set_slot(*d, Some(r));
                             Obs::Unit
                         }
                         None => {
@@ -808,35 +875,35 @@ where
                 }
                 _ => Obs::Skipped,
             },
-            Op::Eq { a, b, ne } => match (self.h(*a), self.h(*b)) {
+            Op::Eq { a, b, ne } => match (self.h(*a, script), self.h(*b, script)) {
                 (Some(x), Some(y)) => Obs::Bool(if script {
-                    if *ne { f.ne.call(x, y) } else { f.eq.call(x, y) }
+                    if *ne { f.ne.call(x.own(), y.own()) } else { f.eq.call(x.own(), y.own()) }
                 } else if *ne {
-                    x != y
+                    *x != *y
                 } else {
-                    x == y
+                    *x == *y
                 }),
                 _ => Obs::Skipped,
             },
-            Op::ToVec { h } => match self.h(*h) {
+            Op::ToVec { h } => match self.h(*h, script) {
                 Some(l) => {
                     let v = l.to_vec();
                     Obs::Vals(vals_to_m(v, &mut self.inner, "to_vec"))
                 }
                 None => Obs::Skipped,
             },
-            Op::Iter { h } => match self.h(*h) {
+            Op::Iter { h } => match self.h(*h, script) {
                 Some(l) => {
-                    let v: Vec<E> = l.into_iter().collect();
+                    let v: Vec<E> = l.own().into_iter().collect();
                     Obs::Vals(vals_to_m(v, &mut self.inner, "into_iter"))
                 }
                 None => Obs::Skipped,
             },
-            Op::Debug { h } => match self.h(*h) {
+            Op::Debug { h } => match self.h(*h, script) {
                 Some(l) => {
                     // `Debug for List<A>` needs `A: Debug`; render through the same element loop
                     let mut s = String::from("List([");
-                    for (k, e) in l.into_iter().enumerate() {
+                    for (k, e) in l.own().into_iter().enumerate() {
                         if k > 0 {
                             s.push_str(", ");
                         }
@@ -847,36 +914,36 @@ where
                 }
                 None => Obs::Skipped,
             },
-            Op::Join { h, sep } => match (self.h(*h), &self.join_str) {
+            Op::Join { h, sep } => match (self.h(*h, script), &self.join_str) {
                 (Some(l), Some(j)) => {
                     // SAFETY: Join is only generated for String lists, where E = RotoString
-                    let l: List<RotoString> = unsafe { std::mem::transmute_copy(&std::mem::ManuallyDrop::new(l)) };
+                    let l: List<RotoString> = unsafe { std::mem::transmute_copy(&std::mem::ManuallyDrop::new(l.own())) };
                     let r = j.call(l, RotoString::from(sep.as_str()));
                     let s: &str = r.as_ref();
                     Obs::Text(s.to_string())
                 }
                 _ => Obs::Skipped,
             },
-            Op::ForCount { h } => match self.h(*h) {
-                Some(l) => Obs::Num(f.count.call(l)),
+            Op::ForCount { h } => match self.h(*h, script) {
+                Some(l) => Obs::Num(f.count.call(l.own())),
                 None => Obs::Skipped,
             },
-            Op::ForSum { h } => match (self.h(*h), &self.sum_u64) {
+            Op::ForSum { h } => match (self.h(*h, script), &self.sum_u64) {
                 (Some(l), Some(s)) => {
                     // SAFETY: ForSum is only generated for u64 lists, where E = u64
-                    let l: List<u64> = unsafe { std::mem::transmute_copy(&std::mem::ManuallyDrop::new(l)) };
+                    let l: List<u64> = unsafe { std::mem::transmute_copy(&std::mem::ManuallyDrop::new(l.own())) };
                     Obs::Num(s.call(l))
                 }
                 _ => Obs::Skipped,
             },
-            Op::ForPush { h, n } => match self.h(*h) {
-                Some(l) => Obs::Num(f.forpush.call(l, *n)),
+            Op::ForPush { h, n } => match self.h(*h, script) {
+                Some(l) => Obs::Num(f.forpush.call(l.own(), *n)),
                 None => Obs::Skipped,
             },
-            Op::ForFind { h, v } => match self.h(*h) {
+            Op::ForFind { h, v } => match self.h(*h, script) {
                 Some(l) => {
                     let e = E::from_m(v, &self.inner);
-                    Obs::Num(f.find.call(l, e))
+                    Obs::Num(f.find.call(l.own(), e))
                 }
                 None => Obs::Skipped,
             },
